@@ -30,6 +30,9 @@ func (d *DIO) pt(op, file string, off int64) error {
 
 func (d *DIO) ptd(op, file string, off int64, data []byte) error {
 	vhook.Point("dio", fmt.Sprintf("%s %s@%d", op, filepath.Base(file), off))
+	if NoSync {
+		return nil
+	}
 	switch op {
 	case "WriteAt":
 		if err := vhook.IOHook("pwrite", file, data, off); err != nil {
@@ -74,9 +77,12 @@ func (d *DIO) WriteAt(ctx context.Context, file *os.File, block []byte, offset i
 	if err := d.ptd("WriteAt", file.Name(), offset, block); err != nil {
 		return 0, err
 	}
-	d.mu.Lock()
-	ow := d.OnWrite
-	d.mu.Unlock()
+	var ow func(file string, off int64, block []byte)
+	if !NoSync {
+		d.mu.Lock()
+		ow = d.OnWrite
+		d.mu.Unlock()
+	}
 	if ow != nil {
 		ow(file.Name(), offset, block)
 	}
